@@ -17,12 +17,12 @@ Output is a list of `AnsiTerm.Tok`; `AnsiTerm.serialise` gives the characters.  
 `_link_id` is masked: every OSC 8 opener carries the parameter `id=*`.
 
 Code-variant flags (`RVariant`)
-* `ansiCacheUnkeyed = true`  : today's code — `_make_ansi_codes` returns `self._ansi` whenever it is not
-  `None`, whatever colour system it was computed for (pre-finding F7).  `false`: the repaired code
-  (pending_fixes/C03-ansi-cache-per-colour-system.diff), which remembers the colour system with the codes.
-* `styledControlKept = true` : today's code — `_render_buffer` tests `if style:` first, so a *control*
-  segment that carries a style is written to a non-terminal (F27).  `false`: the repaired code
-  (pending_fixes/C03-control-segments-not-terminal.diff) skips every control segment on a non-terminal.
+* `ansiCacheUnkeyed = true`  : rich 9.10.0 as found — `_make_ansi_codes` returns `self._ansi` whenever it is not
+  `None`, whatever colour system it was computed for (pre-finding F7).  `false`: the repaired code that /repo contains now
+  (fix c9ec5a8, the former pending_fixes/C03-ansi-cache-per-colour-system.diff), which remembers the colour system with the codes.
+* `styledControlKept = true` : rich 9.10.0 as found — `_render_buffer` tests `if style:` first, so a *control*
+  segment that carries a style is written to a non-terminal (F27).  `false`: the repaired code that /repo contains now
+  (fix 23674a1, the former pending_fixes/C03-control-segments-not-terminal.diff) skips every control segment on a non-terminal.
 
 Colour conversion is C18's model (`downgrade`, `getAnsiCodes`), parametrised by `Cfg` / `Palettes`.
 Python errors (`AssertionError` from an ill-formed `Color`, …) are `Except` branches.
@@ -35,13 +35,13 @@ structure RVariant where
   styledControlKept : Bool
 deriving Repr, DecidableEq
 
-/-- rich as it is today. -/
+/-- rich 9.10.0 as found, before fixes c9ec5a8 and 23674a1 (the name `today` dates from then). -/
 def RVariant.today : RVariant := ⟨true, true⟩
-/-- both repairs applied. -/
+/-- both repairs applied: what /repo contains now. -/
 def RVariant.repaired : RVariant := ⟨false, false⟩
 
 /-- A `Style` object: the fields of C06's model plus the `_ansi` slot.  The cache remembers the
-colour system it was computed for; today's code never looks at it (ghost state when
+colour system it was computed for; the as-found code never looks at it (ghost state when
 `ansiCacheUnkeyed`), the repaired code compares it. -/
 structure StyleObj where
   style : Style
